@@ -8,6 +8,7 @@ import (
 	"fmt"
 	"github.com/ipfs/go-unixfsnode/file"
 	"io"
+	"io/fs"
 	"testing"
 
 	"github.com/ipfs/go-cid"
@@ -381,13 +382,15 @@ func TestC06_P_HandmadeFiles(t *testing.T) {
 		ev.Case(fc.Writer+" "+access, hasEmpty, "access:"+access, fmt.Sprintf("hasEmptyChunk:%v", hasEmpty))
 		for i, c := range target.Entity[1:] {
 			fc.St.Missing = map[cid.Cid]bool{c: true}
+			// (the store reports the missing block in its own way, or as one of the bare well-known values)
+			fc.St.MissingBare = []error{nil, nil, io.EOF, io.ErrUnexpectedEOF, fs.ErrNotExist}[i%5]
 			_, ferr, p := c06Access(fc.St, target, target, "", access)
-			fc.St.Missing = map[cid.Cid]bool{}
+			fc.St.Missing, fc.St.MissingBare = map[cid.Cid]bool{}, nil
 			if p != nil {
 				t.Fatalf("C06 [%s via %s] block #%d missing: panic %v", fc.Desc, access, i+1, p)
 			}
 			if ferr == nil {
-				t.Fatalf("C06 [%s via %s]: block #%d %s unavailable but the access reported success", fc.Desc, access, i+1, c)
+				t.Fatalf("C06 [%s via %s]: block #%d %s unavailable (store error: %v) but the access reported success", fc.Desc, access, i+1, c, []error{nil, nil, io.EOF, io.ErrUnexpectedEOF, fs.ErrNotExist}[i%5])
 			}
 			ev.Case(fmt.Sprintf("%s %s fault%d", fc.Writer, access, i), true, "fault")
 		}
